@@ -62,6 +62,7 @@ type c22env struct {
 	multi   bool // the universe has a tx with >= 2 inputs
 	maxPool int
 	wasFull bool // len(pool) reached maxNewTxNum at some point of this case
+	nSig    map[string]int
 }
 
 func c22srcHash(code int) bc.Hash {
@@ -300,8 +301,15 @@ func (e *c22env) oracle(op string, d c22dump) {
 		return "single-input orphan"
 	}
 	fail := func(sig, detail string) {
-		e.c.Count("violated/" + sig)
-		e.c.Fail(sig, fmt.Sprintf("after %q: %s; state %s", op, detail, d.line()))
+		e.c.Count("violated/" + strings.SplitN(sig, ":", 2)[0])
+		// a recorded class is written out at most 25 times per run (all are counted)
+		if e.nSig == nil {
+			e.nSig = map[string]int{}
+		}
+		e.nSig[sig]++
+		if e.nSig[sig] <= 25 {
+			e.c.Fail(sig, fmt.Sprintf("after %q: %s; state %s", op, detail, d.line()))
+		}
 	}
 	if d.unknown > 0 || d.stale > 0 {
 		fail(fmt.Sprintf("dump has %d unknown hashes / %d stale index objects after %s", d.unknown, d.stale, op), "pool maps refer to objects outside the universe or to replaced orphan objects")
